@@ -221,6 +221,7 @@ class MergeChecker(object):
         self.cases = 0
         self.fails = []
         self.nfail = 0
+        self.kinds = collections.Counter()
         self.new_db()
 
     def new_db(self, features=()):
@@ -229,13 +230,14 @@ class MergeChecker(object):
         self.count_db = 0
 
     def fail(self, case, expected, observed):
+        # keep up to MAXFAIL failures per kind, so that a frequent known defect cannot crowd out a different one
         self.nfail += 1
-        if len(self.fails) < MAXFAIL:
+        kind = observed[:60] if isinstance(observed, str) else observed["problems"][0][:24]
+        self.kinds[kind] += 1
+        if self.kinds[kind] <= MAXFAIL:
             self.fails.append({"case": case, "expected": expected, "observed": observed})
 
-    def check(self, feats, exp_runs, crit=_OMIT, crit_names=None, exp_extents=None, as_iter=False, note=None,
-              prior=None):
-        """prior: ids of objects that were outputs of an earlier merge (re-merge cases), only for the description"""
+    def check(self, feats, exp_runs, crit=_OMIT, crit_names=None, exp_extents=None, as_iter=False, note=None):
         self.cases += 1
         self.count_db += 1
         if self.count_db > self.renew:
@@ -662,9 +664,9 @@ def unit_store(U):
         "database after merge_all == database before + one stored feature (fresh id, union extent) per multi-member run of the "
         "interval union, with (merged, member, 1) added and Parent set for every member, or with the members and their relations "
         "deleted when exclude_components; nothing else changes; returned list == those runs",
-        "feature sets of <= %d intervals (exhaustive small scopes in one group, sampled 2x2x2 mixtures, random up to 9 intervals), "
+        "%d feature sets (all start-ordered sequences of small scopes in one group, sampled 2x2x2 mixtures, random 4-9 intervals), "
         "ids in shuffled order, with/without a gene parent holding level-1 relations, exclude_components on/off, default arguments / "
-        "explicit defaults / featuretypes_groups=('exon',) / exon+CDS group without feature_type criterion" % (9,),
+        "explicit defaults / featuretypes_groups=('exon',) / exon+CDS group without feature_type criterion" % (len(work),),
         cases, fails, distinct=cases, sample={"failures_total": nfail[0]})
 
     # ---------------- children_bp
@@ -770,7 +772,6 @@ def unit_remerge(U):
         for _ in range(5000 if U.thorough else 400):
             yield sorted(rand_rows(U.rng, U.rng.randint(4, 9), U.rng.choice((10, 20)), U.rng.choice((1, 3))), key=lambda r: r[0])
 
-    import warnings
     for rows in rows_iter():
         for first, second in ((default, default), (default, loose), (exact, default), (loose, exact), (default, anything)):
             # same objects again
